@@ -1,5 +1,6 @@
 import PebblesVerif.Model.QueryBatch
 import PebblesVerif.Gen.FindSelection
+import PebblesVerif.Gen.Nulls
 /-!
 Model of `executor.FindInsertionPoints` (executor/result.go:94-277) with `FindSelection`
 (executor/selection_set.go) and `extractID`, on `J` values, for the way the executor calls it:
@@ -8,9 +9,12 @@ branch). Its reactions to answers whose shape contradicts the schema are kept li
 
 * a field the step does not select, or a key missing from the answer ⇒ no insertion points;
 * `null` ⇒ none (an error for a non-null type);
-* list type: a non-list answer is an error, every element must be a map, on the last point each
-  element needs an `id` — an element whose only key is `__typename`, or whose `id` is `null`, makes the
-  WHOLE call return no points (also those of earlier elements);
+* list type: a non-list answer is an error; a `null` element is passed over and keeps its place (the
+  other elements keep their indices) — after the repair, regenerated fact
+  `Gen.Nulls.findIPSkipsNullElements`; before it a `null` element was an error like any other non-map —
+  every other element must be a map; on the last point each map element needs an `id` — an element
+  whose only key is `__typename`, or whose `id` is `null`, makes the WHOLE call return no points (also
+  those of earlier elements);
 * non-list type: if the answer is not a map the walk continues in the SAME object; on the last point a
   LIST answer is indexed by branch number (`rootList[0]`) — without the guard of `repo_fixes/faults-4`
   an empty list is an index panic — otherwise the answer must be a map with an `id`.
@@ -128,8 +132,9 @@ def entryGo (rec : Obj → List String → G (List (List String))) (pts : List (
   | .ok p => .ok (pts ++ p)
 
 /-- one element of a list answer (`for entryI, iEntry := range rootList`); `rec` is the recursive call
-    on the element with the extended branch -/
-def entryStep (point : String) (last : Bool) (branch : List String)
+    on the element with the extended branch; `skipNull` = the guard `if iEntry == nil { continue }`
+    stands before the map assertion -/
+def entryStep (skipNull : Bool) (point : String) (last : Bool) (branch : List String)
     (rec : Obj → List String → G (List (List String))) (acc : R) (xi : J × Nat) : R :=
   match acc with
   | .error e => .error e
@@ -144,6 +149,10 @@ def entryStep (point : String) (last : Bool) (branch : List String)
         | .ok (some .null) => .error none
         | .ok (some id) => entryGo rec pts o (branch ++ [ep ++ "#" ++ fmtV id])
       else entryGo rec pts o (branch ++ [ep])
+    | .null =>
+      -- `if iEntry == nil { continue }`: nothing to stitch at a null element
+      if skipNull then .ok pts
+      else .error (some (ferr "entry-not-map" "entry in result wasn't a map"))
     | _ => .error (some (ferr "entry-not-map" "entry in result wasn't a map"))
 
 /-- the last point of the path has a non-list type: the insertion point is the object itself
@@ -185,7 +194,7 @@ def fip (f : Facts) : List String → List Sel → Obj → List String → G (Li
         if fd.isList then
           match v with
           | .arr xs =>
-            finish (xs.zipIdx.foldl (entryStep point rest.isEmpty branch (fun o b => fip f rest fd.sub o b)) (.ok []))
+            finish (xs.zipIdx.foldl (entryStep Gen.Nulls.findIPSkipsNullElements point rest.isEmpty branch (fun o b => fip f rest fd.sub o b)) (.ok []))
           | _ => .error (ferr "not-a-list" "root value of result chunk was not a list")
         else
           if rest.isEmpty then lastNonList f point branch v
